@@ -85,8 +85,9 @@ ASSUMPTIONS = [
     'and patterns are lower case',
     'CIDR patterns in known_hosts are an asyncssh extension: judged only for '
     'default-port lookups, with the ipaddress module as arbiter',
-    'when a ported lookup selects only @revoked lines either "no fallback" '
-    'or "fallback plus the revoked keys of the ported lookup" is accepted',
+    'when a ported lookup selects only @revoked lines the plain name is '
+    'looked up as well and the revoked keys of the ported lookup are kept '
+    '(what the OpenSSH client does)',
     'only documented option syntax is generated: values in double quotes, '
     '\\" as the only escape, one from= / principals= / command= per line, '
     'distinct environment names per line, plain principal names',
@@ -209,7 +210,11 @@ def kh_reference(entries, host, addr, port):
         return [ported], False
     if not ported[2]:
         return [plain], False
-    return [ported, (plain[0], plain[1], plain[2] | ported[2])], True
+    # Only @revoked lines name the ported form.  OpenSSH (checked against the
+    # real ssh client: `@revoked *` or `@revoked [host]:port` next to a plain
+    # `host key` line still connects on a non-default port) falls back to the
+    # plain name; the revocations listed for the port stay in force.
+    return [(plain[0], plain[1], plain[2] | ported[2])], True
 
 
 def kh_ip_quirk(entries, host, addr, port):
